@@ -270,6 +270,30 @@ def process(ctx: Ctx, cases: list[dict]) -> None:
                             ctx.violation("a write to a relative target whose folder is missing in this working directory does not create it", c, repr(res), f"{wd}/{rel}")
                 finally:
                     os.chdir(old)
+            elif k == "reldump":
+                # an SDict that got its source through a RELATIVE path (load / constructor / setter), the working directory
+                # changes, then dump() without a target: the one file written is the file it was loaded from
+                old = os.getcwd()
+                try:
+                    (td / "work" / "cases").mkdir(parents=True, exist_ok=True); (td / "elsewhere").mkdir(exist_ok=True)
+                    (td / "work" / "cases" / "caseDict").write_text("a 1;\n")
+                    os.chdir(td / "work")
+                    rel = Path("cases") / "caseDict"
+                    if c["how"] == "load":
+                        sdx = SDict(); sdx.load(rel)
+                    elif c["how"] == "ctor":
+                        sdx = SDict(rel)
+                    else:
+                        sdx = SDict(); sdx.source_file = rel
+                    sdx["added"] = 2
+                    os.chdir(td / "elsewhere")
+                    res, eff, b, a = trace(td, lambda: sdx.dump())
+                    ch = sorted(x for x in changed(b, a) if not x.endswith("/"))
+                    if isinstance(res, BaseException) or ch != ["work/cases/caseDict"]:
+                        ctx.violation("dump() of an SDict whose source was given by a relative path, after a change of the working directory, does not write (only) the file it came from",
+                                      c, {"changed": ch, "result": repr(res)}, ["work/cases/caseDict"])
+                finally:
+                    os.chdir(old)
             elif k == "parse":
                 opts = c["opts"]
                 res, eff, b, a = trace(td, lambda: DictParser.parse(proj / c["file"], **opts))
@@ -322,6 +346,10 @@ def run(ctx: Ctx) -> None:
     rng = ctx.rng
     cases = []
     for e in getattr(ctx, "fixed_witnesses", []):
+        if isinstance(e.get("witness"), dict) and e["witness"].get("kind") == "api":
+            from props import api as _api          # a history of API calls kept from a seeded change
+            _api.process(ctx, [e["witness"]], oracles=False); ctx.corpus_cases += 1
+            continue
         cases.append(e["witness"]); ctx.corpus_cases += 1
     cases.append({"kind": "name", "name": "parsedXfoo", "prefix": "parsed"}); ctx.corpus_cases += 1
     for opts, reads in (({}, ["src", "sub/inc", "sub/inc2"]), ({"includes": False}, ["src"]), ({"comments": False, "order": True}, ["src", "sub/inc", "sub/inc2"])):
@@ -338,6 +366,8 @@ def run(ctx: Ctx) -> None:
             cases.append({"kind": "dump", "target": target, "target_exists": exists, "d": enc(d)})
     for nm, mode, how in itertools.product(["d.json", "d", "my d.foam"], ["a", "w"], ["write", "dump"]):
         cases.append({"kind": "rewrite", "name": nm, "mode": mode, "how": how})
+    for how in ("load", "ctor", "setter"):
+        cases.append({"kind": "reldump", "how": how})
     for fault, target in (("formatter_raises", "out"), ("json_set", "out.json"), ("xml_name", "out.xml"), ("native_obj", "out"), ("formatter_raises", "newdir/out")):
         for mode, exists in itertools.product(["a", "w", "x"], [False, True]):
             cases.append({"kind": "write", "target": target, "mode": mode, "target_exists": exists, "fault": fault, "d": enc({"k": 1})})
